@@ -222,7 +222,21 @@ func (h *handler) Handle(ctx context.Context) {
 		}
 	}
 
-	wg.Wait()
+	// The receiver can be blocked dispatching a message to a full scheduler
+	// queue that the loop above no longer reads: keep consuming it until both
+	// goroutines are gone.
+	done := make(chan struct{})
+	go func() {
+		wg.Wait()
+		close(done)
+	}()
+	for {
+		select {
+		case <-done:
+			return
+		case <-h.consumer.Messages():
+		}
+	}
 }
 
 func (h *handler) send(protoMsg hwebsocket.ProtoMsg) {
